@@ -110,6 +110,7 @@ Definition Inv (s : st) (L : led) : Prop :=
   0 <= unacked s /\ (unacked s < climit s / 4 \/ unacked s = 0) /\
   0 <= want L /\ 0 <= deliv L - readb L /\
   sshrunk L = false /\ cdead L = false /\
+  siw L = iws s /\ 1 <= siw L <= 2147483647 /\
   (ldead L = false -> SInv s L).
 
 Lemma inv_init cfg s : cfg_ok cfg = true -> init cfg = Some s -> Inv s (linit cfg).
@@ -174,10 +175,10 @@ Lemma step_ping i s L o s' :
   Inv s L -> stepk s OPing = (o, s') ->
   exists L', lstepk L OPing o = Some L' /\ Inv s' L' /\ okc (clauses_k i L OPing o L').
 Proof.
-  intros HI H. destruct s as [l p u d cl un dd iw]. destruct L as [a r ca cr lm clm dv rb w ld aj bm sk cd].
+  intros HI H. destruct s as [l p u d cl un dd iw]. destruct L as [a r ca cr lm clm dv rb w ld aj bm sk cd si].
   cbn in H. inversion H; subst; clear H.
-  unfold Inv in HI; cbn in HI. destruct HI as (Hd & Hcl & Hclr & Hcw & Hun & Hun2 & Hw & Hur & Hsk & Hcd & HS).
-  subst dd cl sk cd. destruct ld.
+  unfold Inv in HI; cbn in HI. destruct HI as (Hd & Hcl & Hclr & Hcw & Hun & Hun2 & Hw & Hur & Hsk & Hcd & Hsi & Hsir & HS).
+  subst dd cl sk cd si. destruct ld.
   - finish.
   - specialize (HS eq_refl). unfold SInv in HS; cbn in HS. finish.
 Qed.
@@ -186,9 +187,9 @@ Lemma step_new i s L n o s' :
   Inv s L -> opk_ok L (ONew n) = true -> stepk s (ONew n) = (o, s') ->
   exists L', lstepk L (ONew n) o = Some L' /\ Inv s' L' /\ okc (clauses_k i L (ONew n) o L').
 Proof.
-  intros HI Hok H. destruct s as [l p u d cl un dd iw]. destruct L as [a r ca cr lm clm dv rb w ld aj bm sk cd].
-  unfold Inv in HI; cbn in HI. destruct HI as (Hd & Hcl & Hclr & Hcw & Hun & Hun2 & Hw & Hur & Hsk & Hcd & HS).
-  subst dd cl sk cd. cbn in Hok. consts.
+  intros HI Hok H. destruct s as [l p u d cl un dd iw]. destruct L as [a r ca cr lm clm dv rb w ld aj bm sk cd si].
+  unfold Inv in HI; cbn in HI. destruct HI as (Hd & Hcl & Hclr & Hcw & Hun & Hun2 & Hw & Hur & Hsk & Hcd & Hsi & Hsir & HS).
+  subst dd cl sk cd si. cbn in Hok. consts.
   assert (E0 : (n =? 0) = false) by lia.
   unfold stepk, tr_newLimit, in_newLimit, set_iws in H. rewrite (u32_small n) in H by lia. cbn in H.
   destruct ld; cbn in H.
@@ -211,9 +212,9 @@ Lemma step_req i s L n o s' :
   Inv s L -> opk_ok L (OReq n) = true -> stepk s (OReq n) = (o, s') ->
   exists L', lstepk L (OReq n) o = Some L' /\ Inv s' L' /\ okc (clauses_k i L (OReq n) o L').
 Proof.
-  intros HI Hok H. destruct s as [l p u d cl un dd iw]. destruct L as [a r ca cr lm clm dv rb w ld aj bm sk cd].
-  unfold Inv in HI; cbn in HI. destruct HI as (Hd & Hcl & Hclr & Hcw & Hun & Hun2 & Hw & Hur & Hsk & Hcd & HS).
-  subst dd cl sk cd. cbn in Hok. consts.
+  intros HI Hok H. destruct s as [l p u d cl un dd iw]. destruct L as [a r ca cr lm clm dv rb w ld aj bm sk cd si].
+  unfold Inv in HI; cbn in HI. destruct HI as (Hd & Hcl & Hclr & Hcw & Hun & Hun2 & Hw & Hur & Hsk & Hcd & Hsi & Hsir & HS).
+  subst dd cl sk cd si. cbn in Hok. consts.
   unfold stepk in H. rewrite (u32_small n) in H by lia. cbn [dead] in H.
   destruct ld.
   - cbn in H. inversion H; subst; clear H. finish.
@@ -228,9 +229,9 @@ Lemma step_read i s L k o s' :
   Inv s L -> opk_ok L (ORead k) = true -> stepk s (ORead k) = (o, s') ->
   exists L', lstepk L (ORead k) o = Some L' /\ Inv s' L' /\ okc (clauses_k i L (ORead k) o L').
 Proof.
-  intros HI Hok H. destruct s as [l p u d cl un dd iw]. destruct L as [a r ca cr lm clm dv rb w ld aj bm sk cd].
-  unfold Inv in HI; cbn in HI. destruct HI as (Hd & Hcl & Hclr & Hcw & Hun & Hun2 & Hw & Hur & Hsk & Hcd & HS).
-  subst dd cl sk cd. cbn in Hok. consts.
+  intros HI Hok H. destruct s as [l p u d cl un dd iw]. destruct L as [a r ca cr lm clm dv rb w ld aj bm sk cd si].
+  unfold Inv in HI; cbn in HI. destruct HI as (Hd & Hcl & Hclr & Hcw & Hun & Hun2 & Hw & Hur & Hsk & Hcd & Hsi & Hsir & HS).
+  subst dd cl sk cd si. cbn in Hok. consts.
   unfold stepk in H. cbn [dead] in H.
   destruct ld.
   - cbn in H. inversion H; subst; clear H. finish.
@@ -246,9 +247,9 @@ Lemma step_data i s L size pad o s' :
   exists L', lstepk L (OData size pad) o = Some L' /\ Inv s' L' /\
              okc (clauses_k i L (OData size pad) o L').
 Proof.
-  intros HI Hok H. destruct s as [l p u d cl un dd iw]. destruct L as [a r ca cr lm clm dv rb w ld aj bm sk cd].
-  unfold Inv in HI; cbn in HI. destruct HI as (Hd & Hcl & Hclr & Hcw & Hun & Hun2 & Hw & Hur & Hsk & Hcd & HS).
-  subst dd cl sk cd. cbn in Hok. consts.
+  intros HI Hok H. destruct s as [l p u d cl un dd iw]. destruct L as [a r ca cr lm clm dv rb w ld aj bm sk cd si].
+  unfold Inv in HI; cbn in HI. destruct HI as (Hd & Hcl & Hclr & Hcw & Hun & Hun2 & Hw & Hur & Hsk & Hcd & Hsi & Hsir & HS).
+  subst dd cl sk cd si. cbn in Hok. consts.
   unfold stepk in H. consts. rewrite (u32_small size) in H by lia. rewrite (u32_small pad) in H by lia.
   replace ((pad >? size) || (size >=? 16777216)) with false in H by lia.
   rewrite tr_onData_eq in H by (cbn; dlia). cbn [unacked climit limit pd pu delta dead] in H.
@@ -269,6 +270,30 @@ Proof.
            | inversion H; subst; clear H; finish ] ]).
 Qed.
 
+Lemma step_begin i s L o s' :
+  Inv s L -> stepk s OBegin = (o, s') ->
+  exists L', lstepk L OBegin o = Some L' /\ Inv s' L' /\ okc (clauses_k i L OBegin o L').
+Proof.
+  intros HI H. destruct s as [l p u d cl un dd iw]. destruct L as [a r ca cr lm clm dv rb w ld aj bm sk cd si].
+  cbn in H. inversion H; subst; clear H.
+  unfold Inv in HI; cbn in HI. destruct HI as (Hd & Hcl & Hclr & Hcw & Hun & Hun2 & Hw & Hur & Hsk & Hcd & Hsi & Hsir & HS).
+  subst dd cl sk cd si. destruct ld.
+  - finish.
+  - specialize (HS eq_refl). unfold SInv in HS; cbn in HS.
+    destruct HS as (H1 & H2 & H3 & H4 & H5 & H6 & H7 & H8 & H9 & H10 & H11 & H12 & H13 & H14). subst l.
+    destruct bm; finish.
+Qed.
+
+Lemma step_release i s L o s' :
+  Inv s L -> stepk s ORelease = (o, s') ->
+  exists L', lstepk L ORelease o = Some L' /\ Inv s' L' /\ okc (clauses_k i L ORelease o L').
+Proof.
+  intros HI H. destruct s as [l p u d cl un dd iw]. destruct L as [a r ca cr lm clm dv rb w ld aj bm sk cd si].
+  cbn in H. inversion H; subst; clear H.
+  unfold Inv in HI; cbn in HI. destruct HI as (Hd & Hcl & Hclr & Hcw & Hun & Hun2 & Hw & Hur & Hsk & Hcd & Hsi & Hsir & HS).
+  subst dd cl sk cd si. clear HS. destruct ld; finish.
+Qed.
+
 Lemma stepk_inv i s L k o s' :
   Inv s L -> opk_ok L k = true -> stepk s k = (o, s') ->
   exists L', lstepk L k o = Some L' /\ Inv s' L' /\ okc (clauses_k i L k o L').
@@ -279,6 +304,8 @@ Proof.
   - eapply step_read; eauto.
   - eapply step_new; eauto.
   - eapply step_ping; eauto.
+  - eapply step_begin; eauto.
+  - eapply step_release; eauto.
 Qed.
 
 (* one well-formed step at the word level *)
@@ -301,7 +328,7 @@ Qed.
 Lemma op_ok_pre s L op : Inv s L -> op_ok L op = true -> op_ok L op && negb (cdead L) = true.
 Proof.
   intros HI H. unfold Inv in HI.
-  destruct HI as (Hd & Hcl & Hclr & Hcw & Hun & Hun2 & Hw & Hur & Hsk & Hcd & HS).
+  destruct HI as (Hd & Hcl & Hclr & Hcw & Hun & Hun2 & Hw & Hur & Hsk & Hcd & Hsi & Hsir & HS).
   rewrite Hcd, H. reflexivity.
 Qed.
 
@@ -378,7 +405,7 @@ Lemma ledger_exact cfg ops s L : fin cfg ops = Some (s, L) ->
   (ldead L = false -> win L = limit s + delta s - (pd s + pu s) /\ pd s = deliv L - readb L /\ limit s = lim L).
 Proof.
   intros H. apply fin_inv in H. unfold Inv in H.
-  destruct H as (Hd & Hcl & Hclr & Hcw & Hun & Hun2 & Hw & Hur & Hsk & Hcd & HS). split; [exact Hcw|].
+  destruct H as (Hd & Hcl & Hclr & Hcw & Hun & Hun2 & Hw & Hur & Hsk & Hcd & Hsi & Hsir & HS). split; [exact Hcw|].
   intros Hl. specialize (HS Hl). unfold SInv in HS.
   destruct HS as (H1 & H2 & H3 & H4 & H5 & H6 & H7 & H8 & H9 & H10 & H11 & H12 & H13 & H14). repeat split; lia.
 Qed.
@@ -393,9 +420,9 @@ Lemma data_verdict cfg ops s L size pad o s' :
      (err = 1 /\ dead s' = true /\ win L < size /\ swu = 0)).
 Proof.
   intros Hf Hld Hok Hsz H. apply fin_inv in Hf. rename Hf into HI.
-  destruct s as [l p u d cl un dd iw]. destruct L as [a r ca cr lm clm dv rb w ld aj bm sk cd].
-  unfold Inv in HI; cbn in HI. destruct HI as (Hd & Hcl & Hclr & Hcw & Hun & Hun2 & Hw & Hur & Hsk & Hcd & HS).
-  cbn in Hld. subst ld dd cl sk cd. cbn in Hok.
+  destruct s as [l p u d cl un dd iw]. destruct L as [a r ca cr lm clm dv rb w ld aj bm sk cd si].
+  unfold Inv in HI; cbn in HI. destruct HI as (Hd & Hcl & Hclr & Hcw & Hun & Hun2 & Hw & Hur & Hsk & Hcd & Hsi & Hsir & HS).
+  cbn in Hld. subst ld dd cl sk cd si. cbn in Hok.
   unfold stepk in H. consts. rewrite (u32_small size) in H by lia. rewrite (u32_small pad) in H by lia.
   replace ((pad >? size) || (size >=? 16777216)) with false in H by lia.
   rewrite tr_onData_eq in H by (cbn; dlia). cbn [unacked climit limit pd pu delta dead] in H.
@@ -417,7 +444,7 @@ Lemma adv_bound cfg ops s L : fin cfg ops = Some (s, L) -> ldead L = false ->
   win L <= 2147483647 + 16777216 /\ (bumped L = false -> win L <= 2147483647).
 Proof.
   intros H Hl. apply fin_inv in H. unfold Inv in H.
-  destruct H as (Hd & Hcl & Hclr & Hcw & Hun & Hun2 & Hw & Hur & Hsk & Hcd & HS).
+  destruct H as (Hd & Hcl & Hclr & Hcw & Hun & Hun2 & Hw & Hur & Hsk & Hcd & Hsi & Hsir & HS).
   specialize (HS Hl). unfold SInv in HS.
   destruct HS as (H1 & H2 & H3 & H4 & H5 & H6 & H7 & H8 & H9 & H10 & H11 & H12 & H13 & H14).
   split; [lia|]. intros Hb. specialize (H13 Hb). lia.
@@ -429,7 +456,7 @@ Lemma restored cfg ops s L : fin cfg ops = Some (s, L) -> ldead L = false ->
   (pu s = 0 \/ pu s < lim L / 4).
 Proof.
   intros H Hl He. apply fin_inv in H. unfold Inv in H.
-  destruct H as (Hd & Hcl & Hclr & Hcw & Hun & Hun2 & Hw & Hur & Hsk & Hcd & HS).
+  destruct H as (Hd & Hcl & Hclr & Hcw & Hun & Hun2 & Hw & Hur & Hsk & Hcd & Hsi & Hsir & HS).
   specialize (HS Hl). unfold SInv in HS.
   destruct HS as (H1 & H2 & H3 & H4 & H5 & H6 & H7 & H8 & H9 & H10 & H11 & H12 & H13 & H14).
   clear Hun2 Hcw Hclr. rewrite H1 in H10, H9, H8, H13, H6.
@@ -443,9 +470,9 @@ Lemma large_read_granted cfg ops s L n o s' L' :
   Z.min (Z.min n 2147483647) (2147483647 - lim L' / 4) - (deliv L' - readb L') <= win L'.
 Proof.
   intros Hf Hld Hok H HL. apply fin_inv in Hf. rename Hf into HI.
-  destruct s as [l p u d cl un dd iw]. destruct L as [a r ca cr lm clm dv rb w ld aj bm sk cd].
-  unfold Inv in HI; cbn in HI. destruct HI as (Hd & Hcl & Hclr & Hcw & Hun & Hun2 & Hw & Hur & Hsk & Hcd & HS).
-  cbn in Hld. subst ld dd cl sk cd. cbn in Hok. consts.
+  destruct s as [l p u d cl un dd iw]. destruct L as [a r ca cr lm clm dv rb w ld aj bm sk cd si].
+  unfold Inv in HI; cbn in HI. destruct HI as (Hd & Hcl & Hclr & Hcw & Hun & Hun2 & Hw & Hur & Hsk & Hcd & Hsi & Hsir & HS).
+  cbn in Hld. subst ld dd cl sk cd si. cbn in Hok. consts.
   unfold stepk in H. rewrite (u32_small n) in H by lia. cbn [dead] in H.
   specialize (HS eq_refl). unfold SInv in HS; cbn in HS.
   destruct HS as (H1 & H2 & H3 & H4 & H5 & H6 & H7 & H8 & H9 & H10 & H11 & H12 & H13 & H14). subst l.
@@ -458,7 +485,7 @@ Lemma conn_window cfg ops s L : fin cfg ops = Some (s, L) ->
   cwin L <= clim L /\ clim L <= 2147483647 /\ 3 * clim L < 4 * cwin L.
 Proof.
   intros H. apply fin_inv in H. unfold Inv in H.
-  destruct H as (Hd & Hcl & Hclr & Hcw & Hun & Hun2 & Hw & Hur & Hsk & Hcd & HS).
+  destruct H as (Hd & Hcl & Hclr & Hcw & Hun & Hun2 & Hw & Hur & Hsk & Hcd & Hsi & Hsir & HS).
   clear HS. rewrite Hcl in Hcw, Hun2. split; [lia|]. split; [lia|]. dlia.
 Qed.
 
@@ -492,9 +519,9 @@ Lemma new_limit_legal cfg ops s L n o s' :
      (sv = n /\ iws s < n /\ iws s' = n /\ limit s <= limit s')).
 Proof.
   intros Hf Hok H. apply fin_inv in Hf. rename Hf into HI.
-  destruct s as [l p u d cl un dd iw]. destruct L as [a r ca cr lm clm dv rb w ld aj bm sk cd].
-  unfold Inv in HI; cbn in HI. destruct HI as (Hd & Hcl & Hclr & Hcw & Hun & Hun2 & Hw & Hur & Hsk & Hcd & HS).
-  subst dd cl sk cd. cbn in Hok. consts.
+  destruct s as [l p u d cl un dd iw]. destruct L as [a r ca cr lm clm dv rb w ld aj bm sk cd si].
+  unfold Inv in HI; cbn in HI. destruct HI as (Hd & Hcl & Hclr & Hcw & Hun & Hun2 & Hw & Hur & Hsk & Hcd & Hsi & Hsir & HS).
+  subst dd cl sk cd si. cbn in Hok. consts.
   unfold stepk, tr_newLimit, in_newLimit, set_iws in H. rewrite (u32_small n) in H by lia. cbn in H.
   assert (Hlim : ld = false -> iw = l /\ 1 <= l).
   { intros E. specialize (HS E). unfold SInv in HS; cbn in HS. lia. }
@@ -505,4 +532,14 @@ Proof.
      change (0 >? 0) with false in H; cbn in H; inversion H; subst; clear H;
      do 4 eexists; (split; [reflexivity|]); cbn;
      try (specialize (Hlim eq_refl)); (split; [first [left; lia | right; lia] | first [left; lia | right; lia]])).
+Qed.
+
+(* a stream whose HEADERS are queued now enforces exactly the initial window the peer was told *)
+Lemma new_stream_window cfg ops s L o s' :
+  fin cfg ops = Some (s, L) -> stepk s ORelease = (o, s') ->
+  siw L = iws s /\ limit s' = siw L /\ pd s' = 0 /\ pu s' = 0 /\ delta s' = 0 /\ dead s' = false.
+Proof.
+  intros Hf H. apply fin_inv in Hf. unfold Inv in Hf.
+  destruct Hf as (Hd & Hcl & Hclr & Hcw & Hun & Hun2 & Hw & Hur & Hsk & Hcd & Hsi & Hsir & HS).
+  cbn in H. inversion H; subst; cbn. rewrite Hsi. repeat split; reflexivity.
 Qed.
